@@ -5,6 +5,7 @@ from ..astutil import (walk_shallow, dotted, call_attr, short, src, stmt_of, nam
                        compare_parts, strip_not, const, bool_operands)
 from ..loader import AnalysisError
 from .. import rules as T
+from .. import regexast as RX
 
 ID = 'C01'
 TECHNIQUE = 'dominators, sentinel-identity rule, sibling cross-check, paired-update rule, provenance / taint of the wildcard marker'
@@ -64,9 +65,9 @@ def get_roles(P):
             roles['look_back'] = st.value.func.value.id
         if isinstance(st, ast.Assign) and isinstance(st.value, ast.Subscript) and isinstance(st.value.slice, ast.BinOp) \
                 and src(st.value.slice.left) == 'OFFSET' and isinstance(st.value.slice.right, ast.Name) and isinstance(st.value.value, ast.Name) \
-                and isinstance(st.targets[0], ast.Name) and st.targets[0].id == st.value.value.id:
-            roles['kidx'] = st.value.slice.right.id
-            roles['pnode'] = st.value.value.id
+                and isinstance(st.targets[0], ast.Name) and (st.targets[0].id == st.value.value.id or T.loops_of(st)):
+            roles.setdefault('kidx', st.value.slice.right.id)
+            roles.setdefault('pnode', st.value.value.id)
         if isinstance(st, ast.Assign) and isinstance(st.value, ast.Subscript) and c01_slot(st.value) == 'IDX' and isinstance(st.targets[0], ast.Name) \
                 and T.loops_of(st):
             roles['idx'] = st.targets[0].id
@@ -169,8 +170,37 @@ def check(P, R):
                 else:
                     kinds.add('other:' + short(d.value or d.stmt, 30))
             ok = kinds == {'filter', 'slice'}
+            for d in defs:
+                if d.kind == 'unpack' and isinstance(d.value, ast.Call) and isinstance(d.value.func, ast.Name) and d.index == 0:
+                    a_ = d.value.args
+                    fa_ok = len(a_) == 1 and not d.value.keywords and isinstance(a_[0], ast.Subscript) and isinstance(a_[0].slice, ast.Slice) \
+                        and src(a_[0].value) == roles['route'] and src(a_[0].slice.lower) == roles['cursor'] and a_[0].slice.upper is None
+                    R.ob('C01.a', f, d.value, fa_ok, text=f'the filter is given the remaining path {roles["route"]}[{roles["cursor"]}:] as its own string',
+                         detail='' if fa_ok else f'the filter is called as `{short(d.value)}`: it no longer sees just the text from the cursor on',
+                         why='each wildcard is bound to the text its filter accepted', key_extra='filter-arg')
             R.ob('C01.a', f, c, ok, text=f'{v.id} = filter(route[i:])[0] | route[i:j]', detail='' if ok else f'unexpected origin of the value: {sorted(kinds)}',
                  key_extra='origin')
+    # the `path` mask is greedy up to the look-ahead at the following literal: the walker never backtracks into a filter, so a lazy
+    # mask stops at the first occurrence of the literal and rules whose literal recurs inside the value stop matching
+    ffc = P.cls(f'{FF}:FilterFactory')
+    tbl_ = ffc.attrs.get('filters')
+    if isinstance(tbl_, ast.Dict):
+        from . import c19 as _c19
+        for k_, v_ in zip(tbl_.keys, tbl_.values):
+            if const(k_) != 'path':
+                continue
+            lam_ = _c19.as_lambda(P, ffc.module, v_)
+            if lam_ is None or not isinstance(lam_[1], ast.Tuple) or not lam_[1].elts:
+                continue
+            for pt_ in (RX.pattern_literal(T.module_value(ffc, lam_[1].elts[0])) or []):
+                tree_ = RX.parse(pt_.replace('\x00HOLE\x00', 'X'))
+                if tree_ is None:
+                    continue
+                lazy = [op for (op, av) in RX.walk(tree_) if str(op) == 'MIN_REPEAT']
+                R.ob('C01.a', ffc.fq, None, not lazy, text=f'path mask {pt_!r} is greedy', detail='' if not lazy else
+                     f'the path mask {pt_!r} is lazy: the wildcard ends at the first occurrence of the following literal and the rest of the path is left over '
+                     f'(/files/<p:path>/raw no longer matches /files/a/raw/b/raw)',
+                     why='answers not found only when no registered rule matches', key_extra='path-greedy:' + pt_)
     # filter handler siblings
     mf = P.func(f'{FF}:FilterFactory.make_filter')
     sibs = [x for x in P.all_funcs() if x.parent is mf and x.name == 'handler']
@@ -182,9 +212,10 @@ def check(P, R):
         hg, hrd = h.cfg, h.rd
         mcalls = [c for c in walk_shallow(h.node) if isinstance(c, ast.Call) and isinstance(c.func, ast.Attribute)
                   and dotted(c.func.value) in masks]
-        ok = bool(mcalls) and all(c.func.attr == 'match' and c.args and src(c.args[0]) == h.params[0] for c in mcalls)
+        ok = bool(mcalls) and all(c.func.attr == 'match' and len(c.args) == 1 and not c.keywords and src(c.args[0]) == h.params[0] for c in mcalls)
         R.ob('C01.a', h, mcalls[0] if mcalls else h.node, ok, text=f'handler#{i + 1}: mask.match(param)', detail='' if ok else
-             'the mask is not applied with match() at the cursor (search/fullmatch change what a wildcard consumes)', key_extra=f'h{i}:match')
+             ('the mask is not applied with match(<remaining path>) alone: search/fullmatch change what a wildcard consumes, and match(text, pos) is not '
+              'match(text[pos:]) - `^`, `\\A` and look-behind see the text before the wildcard, so anchored user filters stop matching'), key_extra=f'h{i}:match')
         tmp = T.assigned_name_of_call(mcalls[0]) if mcalls else None
         tests = T.falsy_tests(hg, tmp) if tmp else []
         ok = False
@@ -231,8 +262,27 @@ def check(P, R):
     R.ob('C01.c', f, lit_push[0] if lit_push else f.node, ok, text='push when idx[-1] == TOKEN before taking a literal child', detail='' if ok else
          'the look-back record is not pushed whenever the node also has a wildcard child')
     # push precedes the descent
-    desc = [st for st in walk_shallow(f.node) if isinstance(st, ast.Assign) and src(st.value).replace(' ', '') == f"{roles['pnode']}[OFFSET+{roles['kidx']}]"]
+    desc = [st for st in walk_shallow(f.node) if isinstance(st, ast.Assign) and any(isinstance(t_, ast.Name) and t_.id == roles['pnode'] for t_ in st.targets)
+            and T.xsrc(f, st.value, g.node_of_stmt(st)[0], keep=(roles['pnode'], roles['kidx'])).replace(' ', '') == f"{roles['pnode']}[OFFSET+{roles['kidx']}]"]
     R.require(desc, 'RadiDict.get: literal descent not found')
+    # once a literal child was selected, no exit of the descent loop may come before the push decision
+    push_tests = [n for n in g.nodes if n.kind == 'test' and f"{roles['idx']}[-1]" in src(n.ast) and any(g.dominates(n, g.node_of_stmt(st_)[0]) for st_ in desc)]
+    sel_tests = [n for n in g.nodes if n.kind == 'test' and compare_parts(n.ast) and src(compare_parts(n.ast)[0]) == roles['kidx']
+                 and is_const(compare_parts(n.ast)[2], None) and compare_parts(n.ast)[1] in (ast.Is, ast.IsNot)]
+    if push_tests and sel_tests:
+        early = []
+        for sn_ in sel_tests:
+            lab_ = 'false' if compare_parts(sn_.ast)[1] is ast.Is else 'true'        # the edge on which a literal child was found
+            for s_ in T.succ_by_label(sn_, lab_):
+                if s_ in push_tests:
+                    continue
+                reach_ = g.reachable_from(s_, avoid_nodes=push_tests)
+                early += [n for n in reach_ if n.kind == 'stmt' and isinstance(n.ast, (ast.Break, ast.Return)) and n not in push_tests]
+        R.ob('C01.c', f, early[0].ast if early else push_tests[0].ast, not early, text='with a literal child selected, the descent cannot be left before the look-back decision',
+             detail='' if not early else f'`{short(early[0].ast)}` (line {early[0].line}) leaves the descent after a literal child was selected but before the wildcard '
+             f'sibling was recorded for look-back: a path that fails on the literal branch is answered "not found" although the wildcard rule matches it '
+             f'(rules /user/me and /user/:id, path /user/m)',
+             why='answers not found only when no registered rule matches', key_extra='no-exit-before-push')
     for st in desc:
         dn = g.node_of_stmt(st)[0]
         tests = [n for n in g.nodes if n.kind == 'test' and f"{roles['idx']}[-1]" in src(n.ast) and g.dominates(n, dn)]
